@@ -157,7 +157,7 @@ theorem canonicalS_writeSRaw (m : Nat) (neg : Bool) : canonicalS (writeSRaw m ne
     · have e1 : Nat.lor 128 64 = 192 := by decide
       have e1' : 128 ||| 64 = 192 := e1
       have : wellFlagged (192 :: b :: t) = true := by simp [wellFlagged, hw]
-      simp [setSign, canonicalS, e1, e1', this, h6]
+      simp [setSign, canonicalS, e1', this, h6]
   · have h6' : b / 64 % 2 = 0 := by omega
     simp only [signRoom, h6, if_false]
     rcases wellFlagged_cons b t hw with ⟨ht, hb⟩ | ⟨ht, hb1, hb2, hwt⟩
@@ -167,7 +167,7 @@ theorem canonicalS_writeSRaw (m : Nat) (neg : Bool) : canonicalS (writeSRaw m ne
       · have e1 : Nat.lor b 64 = b + 64 := lor_sign b (by omega) h6'
         have e1' : b ||| 64 = b + 64 := e1
         have : b + 64 < 128 := by omega
-        simp [setSign, e1, e1', canonicalS, wellFlagged, this]
+        simp [setSign, e1', canonicalS, wellFlagged, this]
     · have hb128 : b ≠ 128 := hne ht
       cases t with
       | nil => exact absurd rfl ht
@@ -182,7 +182,7 @@ theorem canonicalS_writeSRaw (m : Nat) (neg : Bool) : canonicalS (writeSRaw m ne
             exact ⟨⟨by omega, by omega⟩, hwt⟩
           have : ¬ ((b + 64) % 64 = 0) := by omega
           have h3 : ¬ (b % 64 = 0) := by omega
-          simp [setSign, e1, e1', canonicalS, h1, this, h3]
+          simp [setSign, e1', canonicalS, h1, h3]
 
 /-- sign and magnitude an octet string reads as -/
 def sNeg : Bytes → Bool
@@ -217,7 +217,7 @@ theorem canonicalS_unique (bs rest : Bytes) (h : canonicalS bs = true) :
         by_cases hn : b / 64 % 2 = 1
         · have e1 : Nat.lor (b % 64) 64 = b % 64 + 64 := lor_sign _ (by omega) (by omega)
           have e1' : (b % 64) ||| 64 = b % 64 + 64 := e1
-          simp [hn, setSign, e1, e1']; omega
+          simp [hn, setSign, e1']; omega
         · simp [hn, setSign]; omega
     · constructor
       · simp only [List.cons_append]
@@ -242,7 +242,7 @@ theorem canonicalS_unique (bs rest : Bytes) (h : canonicalS bs = true) :
             by_cases hn : b / 64 % 2 = 1
             · have e1 : Nat.lor 128 64 = 192 := by decide
               have e1' : 128 ||| 64 = 192 := e1
-              simp [hn, setSign, e1, e1']; omega
+              simp [hn, setSign, e1']; omega
             · simp [hn, setSign]; omega
           · have ha64 : b % 64 < 64 := Nat.mod_lt _ (by omega)
             have hcan : canonicalU ((128 + b % 64) :: c :: t') = true := by
@@ -251,7 +251,7 @@ theorem canonicalS_unique (bs rest : Bytes) (h : canonicalS bs = true) :
                 simp only [wellFlagged, Bool.and_eq_true, decide_eq_true_eq]
                 exact ⟨⟨by omega, by omega⟩, hwt⟩
               have : ¬ (128 + b % 64 = 128) := by omega
-              simp [h1, this, ha]
+              simp [h1, ha]
             have henc := encU_decGo _ hcan
             have hd : decGo ((128 + b % 64) :: c :: t') 0 = decGo (c :: t') (b % 64) := by
               rw [decGo_cons]; congr 1; omega
@@ -261,7 +261,7 @@ theorem canonicalS_unique (bs rest : Bytes) (h : canonicalS bs = true) :
             by_cases hn : b / 64 % 2 = 1
             · have e1 : Nat.lor (128 + b % 64) 64 = 128 + b % 64 + 64 := lor_sign _ (by omega) (by omega)
               have e1' : (128 + b % 64) ||| 64 = 128 + b % 64 + 64 := e1
-              simp [hn, setSign, e1, e1']; omega
+              simp [hn, setSign, e1']; omega
             · simp [hn, setSign]; omega
 
 end Dmr.Mbxml
